@@ -56,6 +56,7 @@ fn dispatch_run(prop: &str, tier: Tier, shard: Shard, rep: &mut Report) {
         "C07" => props::c07::run(tier, shard, rep),
         "C08" => props::c08::run(tier, shard, rep),
         "C10" => props::c10::run(tier, shard, rep),
+        "C11" => props::c11::run(tier, shard, rep),
         "C12" => props::c12::run(tier, shard, rep),
         "C13" => props::c13::run(tier, shard, rep),
         "C14" => props::c14::run(tier, shard, rep),
@@ -83,6 +84,7 @@ fn dispatch_replay(prop: &str, case: &serde_json::Value, rep: &mut Report) {
         "C07" => props::c07::replay(case, rep),
         "C08" => props::c08::replay(case, rep),
         "C10" => props::c10::replay(case, rep),
+        "C11" => props::c11::replay(case, rep),
         "C12" => props::c12::replay(case, rep),
         "C13" => props::c13::replay(case, rep),
         "C14" => props::c14::replay(case, rep),
@@ -110,6 +112,32 @@ fn main() {
     }
     match args.get(1).map(|s| s.as_str()) {
         Some("probe") => probe(),
+        Some("outcomes") => {
+            // debug: kverif outcomes C06 <program-name> [bound]: distinct outcome classes of one program
+            let prop = args.get(2).expect("property").clone();
+            let name = args.get(3).expect("program").clone();
+            let bound: usize = args.get(4).and_then(|s| s.parse().ok()).unwrap_or(2);
+            sched::install_hooks();
+            let progs: Vec<sched::Program> = match prop.as_str() {
+                "C06" => props::c06::programs(Tier::Thorough).into_iter().map(|p| p.0).collect(),
+                "C05" => props::c05::programs(Tier::Thorough).into_iter().map(|p| p.0).collect(),
+                "C01" => props::c01::programs(Tier::Thorough).into_iter().map(|p| p.0).collect(),
+                _ => props::c04::programs(Tier::Thorough).into_iter().map(|p| p.0).collect(),
+            };
+            let prog = progs.iter().find(|p| p.name == name).expect("no such program");
+            let mut stats = sched::new_stats();
+            let mut seen: std::collections::BTreeMap<String, (u64, Vec<usize>)> = Default::default();
+            let mut chk = |x: &sched::Execution, _p: &[usize]| {
+                let e = seen.entry(sched::outcome_key(x)).or_insert((0, x.choices.clone()));
+                e.0 += 1;
+            };
+            let items = sched::expand_frontier(prog, sched::Search::Bounded(bound), &|| sched::RunOpts::default(), 1, &mut chk, &mut stats);
+            sched::explore_items(prog, sched::Search::Bounded(bound), &|| sched::RunOpts::default(), items, &mut chk, &mut stats, 1_000_000);
+            println!("{} executions", stats.executions);
+            for (k, (n, c)) in seen {
+                println!("{:6}  {}  e.g. {:?}", n, k, c);
+            }
+        }
         Some("run") => {
             let prop = args.get(2).expect("property").clone();
             let tier = match arg_after(&args, "--tier") {
